@@ -91,8 +91,12 @@ CLAIMED["C11"] = dict(
    note="Bounds: 3 events, context bound 2 (3 thorough); gather-vs-restart: context bound 1 (2), first 5 (7) non-preemptive switch points nondeterministic. Switches at synchronisation operations only (sound for data-race-free code). Outside: handlers that re-enter the API, close the agent or block forever; longer bursts. Counterexamples are replayed by re-executing the schedule on the real code's SSA.",
    ref="DESIGN.md §5 C11")
 
+CLAIMED["C01"] = dict(
+   text="Bounded two-agent model checking on the real code: a controlling and a controlled agent (bare Agent structs, real selectors, real stun.Build/Decode, real handleInbound and ContactCandidates) are joined by a harness network in which every emitted datagram stays in flight until the explorer delivers, drops or duplicates it. After an adversarial prefix of 3 (thorough 4) explorer-chosen steps from {tick A, tick B, deliver, drop, duplicate/reorder in either direction} a fair loss-free suffix of 6 rounds runs. For every prefix and reachability matrix: the selection invariant holds on both sides at every step, Connected is reported exactly while a pair is selected, an unreachable (or one-way) path never yields Connected or a selection, and with a path reachable both ways both agents end Connected on mirror-image pairs.",
+   note="Bounds: quick 1 candidate per side, thorough 2 per side (4 pairs); prefix 3/4 steps, suffix 6 rounds ('eventually' = within the suffix); ticks call ContactCandidates directly (timer goroutine outside); transaction ids pairwise distinct; clock steps <= ~1 ms; integrity contract. Outside: srflx/NAT topologies, longer loss prefixes, Restart mid-session, real timers/sockets.",
+   ref="DESIGN.md §5 C01")
+
 NOT_APPLICABLE = {
- "C01": "needs two live agents, a symbolic network scheduler and a fairness (liveness) argument; a sequential encoder of single functions cannot express it (its safety half is covered by the C02/C03 lemmas)",
  "C08": "teardown of a complete live agent (timer goroutine, receive loops, gatherers, mux workers, blocked socket I/O) from any point, in bounded wall-clock time: beyond a context-bounded schedule explorer over a handful of threads; the task loop's own Close is covered by C10",
 }
 
